@@ -283,11 +283,31 @@ func (e *Env) C20Save() {
 	// buffer is allocated fresh inside the loop body, before the print
 	bufIdx, printIdx := -1, -1
 	printOK := false
+	isBuf := func(x ast.Expr) bool {
+		if u, ok := x.(*ast.UnaryExpr); ok && u.Op == token.AND {
+			x = u.X
+		}
+		id, ok := x.(*ast.Ident)
+		return ok && c.ObjOf(id) == bufObj
+	}
 	for i, s := range blk.List[:widx] {
 		if as, ok := s.(*ast.AssignStmt); ok && as.Tok == token.DEFINE && len(as.Lhs) == 1 {
 			if id, ok := as.Lhs[0].(*ast.Ident); ok && info.Defs[id] == bufObj {
 				if _, isAlloc := c.AllocOf(as.Rhs[0]); isAlloc {
 					bufIdx = i
+				}
+			}
+		}
+		if ds, ok := s.(*ast.DeclStmt); ok {
+			// var buf bytes.Buffer — a fresh zero value per iteration
+			if gd, ok := ds.Decl.(*ast.GenDecl); ok && gd.Tok == token.VAR {
+				for _, sp := range gd.Specs {
+					vs := sp.(*ast.ValueSpec)
+					for _, nm := range vs.Names {
+						if info.Defs[nm] == bufObj && len(vs.Values) == 0 {
+							bufIdx = i
+						}
+					}
 				}
 			}
 		}
@@ -305,7 +325,7 @@ func (e *Env) C20Save() {
 							recvOK = true
 						}
 					}
-					a0, ok0 := call.Args[0].(*ast.Ident)
+					ok0 := isBuf(call.Args[0])
 					a1, ok1 := call.Args[1].(*ast.Ident)
 					errObj := info.Defs[as.Lhs[0].(*ast.Ident)]
 					condOK := false
@@ -321,7 +341,7 @@ func (e *Env) C20Save() {
 						}
 					}
 					printIdx = i
-					printOK = recvOK && ok0 && ok1 && c.ObjOf(a0) == bufObj && c.ObjOf(a1) == fileObj && condOK && retOK
+					printOK = recvOK && ok0 && ok1 && c.ObjOf(a1) == fileObj && condOK && retOK
 				}
 			}
 		}
@@ -507,7 +527,14 @@ func (e *Env) filenamesWriters(c *schema.Ctx) {
 					// value: <fset>.File(<pos rooted at the case's n>).Name()
 					good := false
 					if call, ok := as.Rhs[0].(*ast.CallExpr); ok && len(call.Args) == 0 && funcKey(c.Callee(call)) == "(*go/token.File).Name" {
-						if inner, ok := call.Fun.(*ast.SelectorExpr).X.(*ast.CallExpr); ok && len(inner.Args) == 1 && funcKey(c.Callee(inner)) == "(*go/token.FileSet).File" {
+						recvX := call.Fun.(*ast.SelectorExpr).X
+						if id, ok := recvX.(*ast.Ident); ok {
+							// a local holding the *token.File (e.g. `if tf := fset.File(pos); tf != nil`)
+							if def := singleDef(info, fd, id); def != nil {
+								recvX = def
+							}
+						}
+						if inner, ok := recvX.(*ast.CallExpr); ok && len(inner.Args) == 1 && funcKey(c.Callee(inner)) == "(*go/token.FileSet).File" {
 							good = rootedAtCaseVar(inner.Args[0], func(o types.Object) bool { return o == caseVar })
 						}
 					}
@@ -566,4 +593,37 @@ func init() {
 		e.RWho()
 		e.C20Save()
 	})
+}
+
+// singleDef returns the defining expression of a local that is defined exactly once in fd.
+func singleDef(info *types.Info, fd *ast.FuncDecl, id *ast.Ident) ast.Expr {
+	obj := info.Uses[id]
+	if obj == nil {
+		return nil
+	}
+	var def ast.Expr
+	n := 0
+	ast.Inspect(fd.Body, func(nd ast.Node) bool {
+		as, ok := nd.(*ast.AssignStmt)
+		if !ok {
+			return true
+		}
+		for i, l := range as.Lhs {
+			lid, ok := l.(*ast.Ident)
+			if !ok {
+				continue
+			}
+			if info.Defs[lid] == obj || (as.Tok != token.DEFINE && info.Uses[lid] == obj) {
+				n++
+				if len(as.Lhs) == len(as.Rhs) {
+					def = as.Rhs[i]
+				}
+			}
+		}
+		return true
+	})
+	if n == 1 {
+		return def
+	}
+	return nil
 }
